@@ -5,6 +5,7 @@ import text_lib as T
 import remap_lib as R
 import fasta_lib as F
 
+EXTRA_ANCHORS = ['fasta/stream.py', 'assembly/scripts/pretext_to_asm.py']      # files outside the property's anchors whose change escalates the quick budget (T3)
 LEVEL = "proof"
 RULE = ("AGP text written by format_agp for random assemblies (gaps >= 1), by the asm-format CLI, for every output assembly of remapped (input, Pretext) pairs "
         "(scripts, perturbed, tagged), and as the .agp cache beside indexed random FASTA files — each parsed by an independent AGP reader (columns 1-9). "
